@@ -15,6 +15,8 @@ structure ArbStableC (P : Arbiter → Prop) : Prop where
   stopping : ∀ a, P a → P { a with stopping := true }
   restarting : ∀ a, P a → P { a with restarting := true, stopping := true }
   loopStop : ∀ a b, P a → P { a with loopStop := b }
+  socketEvent : ∀ a b, P a → P { a with socketEvent := b }
+  sockReady : ∀ a b, P a → P { a with sockReady := b }
   directory : ∀ a ns ws, P a → P { a with names := ns, watchers := ws }
   slot : ∀ a v, P a → P { a with slot := v }
 
@@ -57,6 +59,8 @@ theorem arbPLeafXC (P : Arbiter → Prop) (S : ArbStableC P) : LeafXC (ArbP P) w
   setStopping := arbP_modA _ S.stopping
   setRestarting := arbP_modA _ S.restarting
   setLoopStop := fun b => arbP_modA _ (fun a => S.loopStop a b)
+  setSocketEvent := fun b => arbP_modA _ (fun a => S.socketEvent a b)
+  setSockReady := fun b => arbP_modA _ (fun a => S.sockReady a b)
   clearDone := arbP_same fun _ => rfl
   unregister := fun u => arbP_modA _ (fun a => S.directory a _ _)
   registerNew := fun w _ => by
@@ -83,7 +87,7 @@ theorem arbPLeafX (P : Arbiter → Prop) (S : ArbStable P) : LeafX (ArbP P) :=
   { arbPLeafXC P S.toArbStableC with setClosed := arbP_modA _ S.closed }
 
 theorem socketsStableC (c p : Bool) : ArbStableC (fun a => a.ctlClosed = c ∧ a.pubClosed = p) :=
-  ⟨fun _ h => h, fun _ h => h, fun _ _ h => h, fun _ _ _ h => h, fun _ _ h => h⟩
+  ⟨fun _ h => h, fun _ h => h, fun _ _ h => h, fun _ _ h => h, fun _ _ h => h, fun _ _ _ h => h, fun _ _ h => h⟩
 
 theorem validateExecute_never_closes (cmd : String) (props : JVal) (s : State) :
     (validateExecute cmd props s).2.a.ctlClosed = s.a.ctlClosed ∧ (validateExecute cmd props s).2.a.pubClosed = s.a.pubClosed :=
